@@ -27,7 +27,7 @@ MUTANTS = [
     ("c05-dropout-seeded-by-thread-index", "C05", "src/tensor.rs",
      "let mut generator = random::Generator::create(12345);",
      "let mut generator = random::Generator::create(12345 + rayon::current_thread_index().unwrap_or(0) as u64);", 1),
-    ("c05-chunk-by-thread-count", "C05", "src/network.rs",
+    ("c12-reversed-chunks-in-predict-batch", "C12", "src/network.rs",
      """    pub fn predict_batch(&self, inputs: &Vec<&tensor::Tensor>) -> Vec<tensor::Tensor> {
         inputs
             .par_chunks(_CHUNKS)""",
@@ -67,6 +67,171 @@ MUTANTS = [
     ("c04-refactor-reverse-sample-sum (keeps property)", "C04", "src/network.rs",
      "                for (wg, wb, loss) in results {",
      "                for (wg, wb, loss) in results.into_iter().rev().collect::<Vec<_>>().into_iter().rev() {", 0),
+    # ---- C12 -------------------------------------------------------------------------
+    ("c12-tolerance-inclusive", "C12", "src/network.rs",
+     """                                                    if (t - p).abs() < tol {""",
+     """                                                    if (t - p).abs() <= tol {""", 0),  # targets sit at +-tol/2 and +-2tol: <= vs < is not observable at these margins; documents the oracle's resolution
+    ("c12-sum-instead-of-mean", "C12", "src/network.rs",
+     """            loss.iter().sum::<f32>() / loss.len() as f32,
+            acc.iter().sum::<f32>() / acc.len() as f32,""",
+     """            loss.iter().sum::<f32>(),
+            acc.iter().sum::<f32>() / acc.len() as f32,""", 1),
+    ("c12-mismatched-chunk-sizes", "C12", "src/network.rs",
+     """            .par_chunks(_CHUNKS)
+            .zip(targets.par_chunks(_CHUNKS))
+            .flat_map(|(inputs, targets)| {""",
+     """            .par_chunks(_CHUNKS)
+            .zip(targets.par_chunks(_CHUNKS / 2))
+            .flat_map(|(inputs, targets)| {""", 1),
+    ("c12-argmax-rule-for-every-activation", "C12", "src/network.rs",
+     """                                activation::Function::Softmax(_) => {""",
+     """                                activation::Function::Softmax(_) | activation::Function::Sigmoid(_) => {""", 1),
+    # ---- C13 -------------------------------------------------------------------------
+    ("c13-stop-check-from-epoch-eq-threshold", "C13", "src/network.rs",
+     "                if epoch > threshold {",
+     "                if epoch >= threshold {", 1),
+    ("c13-non-strict-increase", "C13", "src/network.rs",
+     "                        if history[i] <= history[i + 1] {",
+     "                        if history[i] < history[i + 1] {", 1),
+    ("c13-window-one-longer", "C13", "src/network.rs",
+     "                        val_loss.iter().rev().take(threshold as usize).collect();\n                    let mut increasing = true;\n                    for i in 0..threshold as usize - 1 {",
+     "                        val_loss.iter().rev().take(threshold as usize + 1).collect();\n                    let mut increasing = true;\n                    for i in 0..threshold as usize {", 1),
+    ("c13-validation-metrics-pushed-before-training", "C13", "src/network.rs",
+     "            train_loss.push(loss_epoch / batches.len() as f32);\n",
+     "            if epoch < epochs || validation.is_none() { train_loss.push(loss_epoch / batches.len() as f32); }\n", 1),
+    # ---- C09 -------------------------------------------------------------------------
+    ("c09-learn-exit-forgets-feedback-flags", "C09", "src/network.rs",
+     """                Layer::Deconvolution(layer) => layer.training = false,
+                Layer::Feedback(feedback) => feedback.training(false),
+                _ => (),
+            }
+        }
+
+        (train_loss, val_loss, val_acc)""",
+     """                Layer::Deconvolution(layer) => layer.training = false,
+                _ => (),
+            }
+        }
+
+        (train_loss, val_loss, val_acc)""", 1),
+    ("c09-validate-skips-convolution-flags", "C09", "src/network.rs",
+     """                Layer::Convolution(layer) => layer.training = false,
+                Layer::Deconvolution(layer) => layer.training = false,
+                Layer::Feedback(feedback) => feedback.training(false),
+                _ => (),
+            }
+        }
+
+        let results""",
+     """                Layer::Deconvolution(layer) => layer.training = false,
+                Layer::Feedback(feedback) => feedback.training(false),
+                _ => (),
+            }
+        }
+
+        let results""", 1),
+    # ---- C10 -------------------------------------------------------------------------
+    ("c10-parameters-count-every-copy", "C10", "src/feedback.rs",
+     "        for idx in 0..self.coupled.len() {\n            parameters += match &self.layers[idx] {",
+     "        for idx in 0..self.layers.len() {\n            parameters += match &self.layers[idx] {", 1),
+    ("c10-bias-not-recoupled", "C10", "src/feedback.rs",
+     """                        if let Some(b) = &mut layer.bias {
+                            *b = bias.clone().unwrap();
+                        }""",
+     """                        if let (Some(_b), false) = (&mut layer.bias, true) {
+                            *_b = bias.clone().unwrap();
+                        }""", 1),
+    # ---- C03 -------------------------------------------------------------------------
+    ("c03-adam-triple-swaps-betas", "C03", "src/optimizer.rs",
+     """                        momentum[i][j][k] = momentum[i][j][k] * self.beta1
+                            + gradients[i][j][k] * (1.0 - self.beta1);
+                        velocity[i][j][k] = velocity[i][j][k] * self.beta2
+                            + gradients[i][j][k].powf(2.0) * (1.0 - self.beta2);
+                        let m = momentum[i][j][k] / (1.0 - self.beta1.powi(stepnr));
+                        let v = velocity[i][j][k] / (1.0 - self.beta2.powi(stepnr));
+                        weights[i][j][k] -= self.learning_rate * m / (v.sqrt() + self.epsilon);
+                    }
+                }
+            }),
+            _ => panic!("Inconsistent shapes!"),
+        };
+    }
+}
+
+/// AdamW optimizer.""",
+     """                        momentum[i][j][k] = momentum[i][j][k] * self.beta1
+                            + gradients[i][j][k] * (1.0 - self.beta1);
+                        velocity[i][j][k] = velocity[i][j][k] * self.beta2
+                            + gradients[i][j][k].powf(2.0) * (1.0 - self.beta2);
+                        let m = momentum[i][j][k] / (1.0 - self.beta2.powi(stepnr));
+                        let v = velocity[i][j][k] / (1.0 - self.beta1.powi(stepnr));
+                        weights[i][j][k] -= self.learning_rate * m / (v.sqrt() + self.epsilon);
+                    }
+                }
+            }),
+            _ => panic!("Inconsistent shapes!"),
+        };
+    }
+}
+
+/// AdamW optimizer.""", 1),
+    ("c03-bias-shares-weight-slot", "C03", "src/optimizer.rs",
+     """            &mut self.momentum[layer][filter][bias as usize].data,
+            &mut self.velocity[layer][filter][bias as usize].data,
+        ) {
+            (
+                tensor::Data::Single(weights),
+                tensor::Data::Single(gradients),
+                tensor::Data::Single(momentum),
+                tensor::Data::Single(velocity),
+            ) => (0..weights.len()).for_each(|i| {
+                if let Some(decay) = self.decay {""",
+     """            &mut self.momentum[layer][filter][bias as usize].data,
+            &mut self.velocity[layer][filter][0].data,
+        ) {
+            (
+                tensor::Data::Single(weights),
+                tensor::Data::Single(gradients),
+                tensor::Data::Single(momentum),
+                tensor::Data::Single(velocity),
+            ) => (0..weights.len()).for_each(|i| {
+                if let Some(decay) = self.decay {""", 1),
+    ("c03-net-convolution-filters-share-slot", "C03", "src/network.rs",
+     """                Layer::Convolution(layer) => {
+                    for (f, (filter, gradient)) in layer
+                        .kernels
+                        .iter_mut()
+                        .zip(weight_gradients[i].quadruple_to_vec_triple().iter_mut())
+                        .enumerate()
+                    {
+                        self.optimizer.update(i, f, false, stepnr, filter, gradient);""",
+     """                Layer::Convolution(layer) => {
+                    for (_f, (filter, gradient)) in layer
+                        .kernels
+                        .iter_mut()
+                        .zip(weight_gradients[i].quadruple_to_vec_triple().iter_mut())
+                        .enumerate()
+                    {
+                        self.optimizer.update(i, 0, false, stepnr, filter, gradient);""", 1),
+    ("c03-net-feedback-copies-share-optimizer-slot", "C03", "src/feedback.rs",
+     """                network::Layer::Dense(layer) => {
+                    self.optimizer.update(
+                        i,
+                        0,
+                        false,
+                        stepnr,
+                        &mut layer.weights,
+                        &mut weight_gradients[i],
+                    );""",
+     """                network::Layer::Dense(layer) => {
+                    self.optimizer.update(
+                        i % self.coupled.len(),
+                        0,
+                        false,
+                        stepnr,
+                        &mut layer.weights,
+                        &mut weight_gradients[i],
+                    );""", 1),
 ]
 
 EXTRA_PRE = {
